@@ -220,7 +220,7 @@ def _worker(check_factory, tier, wseed, max_examples, widx, q):
         test = hseed(wseed)(test)
         test = settings(max_examples=max_examples, database=None, deadline=None, derandomize=False,
                         report_multiple_bugs=False, print_blob=False,
-                        phases=(Phase.generate, Phase.target, Phase.shrink),
+                        phases=(Phase.generate,) if getattr(check, 'no_shrink', False) else (Phase.generate, Phase.target, Phase.shrink),
                         suppress_health_check=[HealthCheck.too_slow, HealthCheck.data_too_large, HealthCheck.filter_too_much,
                                                HealthCheck.large_base_example])(test)
         fail = None
